@@ -678,7 +678,7 @@ class IntegerWrapper(object):
             if len(self._timings) == 4:
                 needed = len(bits) % 2
             elif len(self._timings) > 4:
-                needed = len(bits ) %4
+                needed = -len(bits) % 4
             else:
                 needed = 0
             for _ in range(needed):
@@ -688,7 +688,7 @@ class IntegerWrapper(object):
             if len(self._timings) == 4:
                 needed = len(bits) % 2
             elif len(self._timings) > 4:
-                needed = len(bits) % 4
+                needed = -len(bits) % 4
             else:
                 needed = 0
             for _ in range(needed):
